@@ -113,9 +113,12 @@ class Handlers(UserDict):
     def __ior__(self, other: Any) -> Handlers:  # type: ignore[override,misc]
         # NOTE: UserDict.__ior__() updates self.data directly, bypassing
         #   __setitem__(), so the resolver cache must be cleared here as well.
-        result = super().__ior__(other)
-        self._resolve.cache_clear()  # type: ignore[attr-defined]
-        return result
+        #   An update that fails part-way has already stored some items,
+        #   hence the finally clause.
+        try:
+            return super().__ior__(other)
+        finally:
+            self._resolve.cache_clear()  # type: ignore[attr-defined]
 
     def __delitem__(self, key: str) -> None:
         super().__delitem__(key)
